@@ -169,16 +169,18 @@ def build_cases(forms, T, impl, ck):
         if not f.get("implicit_omitted"):
             accepted_forms.add(f["idx"])
         exps, rf, wf, er, mg, rmc = G.expectations(f, x)
-        ms = G.mem_sizes_allowed(by_name, f, x)
+        ms, mforms = G.mem_sizes_allowed(by_name, f, x, feat_id)
         alts = G.feature_alternatives(by_name, f, x, feat_id)
         feat_bad = G.judge_features(alts, fa, id_name)
-        line = G.case_v(f, x, exps, rf, wf, er, mg, rmc, ms, alts, feat_bad is None)
+        line = G.case_v(f, x, exps, rf, wf, er, mg, rmc, ms, alts, feat_bad is None, mforms)
         dkey = line.split(" ", 2)[2]      # without the form index: identical tuple + identical expectations only once
         if dkey in seen:
             continue
         seen.add(dkey)
         cover_bad = G.judge(exps, rf, wf, er, mg, r)
         rm_bad = G.judge_rm(exps, ms, x[5], r) if rmc else []
+        if rmc and not rm_bad:
+            rm_bad = [(j, why, "rm-feature") for j, why in G.judge_rm_features(exps, mforms, x[5], r, fa, id_name)]
         cases.append({"form": f, "cand": x, "line": line, "ans": r, "raw": a, "cover_bad": cover_bad, "rm_bad": rm_bad, "feat_bad": feat_bad,
                       "fraw": fa})
     tried_forms = set(k for k in tried_forms if isinstance(k, int))
@@ -199,10 +201,10 @@ def gen_files(T, cases):
         part = [c for c in ok if zlib.crc32(c["form"]["name"].encode()) % SHARDS_OK == k]
         names.append(str(k))
         files["C12_X86Cases_%d.v" % k] = G.cases_file("x86_cases_%d" % k, [c["line"] for c in part],
-                                                     [("covered", "case_covered x86_tables"), ("rm_ok", "case_rm_ok x86_tables"),
-                                                      ("feat", "case_feat_good x86_tables x86_feat_consts")])
+                                                     [("fused", "case_fused x86_tables x86_feat_consts")])
     files["C12_X86Cases_rm_bad.v"] = G.cases_file("x86_cases_rm_bad", [c["line"] for c in rm_bad],
-                                                 [("covered", "case_covered x86_tables"), ("rm_false", "fun c => negb (case_rm_ok x86_tables c)"),
+                                                 [("covered", "case_covered x86_tables"),
+                                                  ("rm_false", "fun c => negb (case_rm_ok x86_tables c && case_rmfeat_ok x86_tables x86_feat_consts c)"),
                                                   ("feat", "case_feat_good x86_tables x86_feat_consts")])
     files["C12_X86Cases_cover_bad.v"] = G.cases_file("x86_cases_cover_bad", [c["line"] for c in cover_bad],
                                                     [("not_covered", "fun c => negb (case_covered x86_tables c)"), ("feat", "case_feat_good x86_tables x86_feat_consts")])
@@ -269,6 +271,12 @@ def build_a64_access(ck, impl, TA):
             continue
         seen.add(line)
         cases.append({"form": f, "cand": x, "line": line, "ans": r, "raw": a, "bad": G.judge_a64(x[2], x[3], r)})
+    # AArch64 query_features (a stub in the pinned tree): one verdict for all accepted tuples whose database form names an extension
+    need = [(f, x) for (f, x), a in zip(cands, answers) if f["ext"] and G.parse_answer(a.replace("A ", "Q ", 1))["impl"].get("v") == 1]
+    ganswers = run_stream(impl, ["G %d %d %s" % (x[0], len(x[1]), " ".join(x[1])) for _f, x in need], shards=4) if need else []
+    untouched = len([g for g in ganswers if g.split()[1:3] == ["0", "0"]])
+    build_a64_access.features = {"tuples_with_database_extension": len(need), "answers_that_leave_the_output_untouched": untouched,
+                                 "sample": ("%s %s" % (need[0][0]["name"], need[0][0]["ext"]), ganswers[0]) if need else None}
     return forms, cands, cases, unsupported, len(forms_ok)
 
 
@@ -305,12 +313,21 @@ EXEC_DENY = {"push", "pop", "pushf", "popf", "pushfq", "popfq", "pusha", "popa",
 EXEC_REGTYPES = {"r8", "r8hi", "r16", "r32", "r64", "xmm", "ymm", "zmm", "k"}
 
 
+# quick tier: check B (dependence on unreported reads) is an obligation for this fixed subset, run with 64 states from a FIXED seed (deterministic):
+# read-modify-write / merging / accumulating instructions (the families where defects were found) plus the three recorded finding families
+B_QUICK = {"cmpxchg", "xadd", "xchg", "punpcklbw", "punpcklwd", "punpckldq", "vdpbf16ps", "vpermi2ps", "vpermi2pd", "vpermi2d", "vpermt2ps",
+           "vfixupimmsd", "vfixupimmss", "vfixupimmps", "vrangesd", "vrangess", "vpternlogd", "vpternlogq", "vcvtpd2ps", "vcvtpd2dq", "vcvtqq2ps",
+           "vfmadd231ps", "vfmadd231sd", "vpdpbusd", "pinsrw", "pinsrb", "movss", "movsd", "vmovss", "movlps", "movhps", "cvtsi2sd", "sqrtss",
+           "adc", "sbb", "cmovz", "setz", "bsf", "bsr", "bt", "bts", "shl", "shld", "rol", "imul", "mul", "div", "popcnt", "lzcnt", "kaddw", "kmovw"}
+B_QUICK_SEED = 20261002
+
+
 def host_exec(ck, cases):
     """EXPLORATION (never an obligation): execute the non-privileged, non-control-flow, non-volatile forms on the host CPU from random
     machine states and compare the processor's behaviour with the reported RW information (harness/c12_exec.cpp)."""
     exe = ck.build_harness("c12x", ["c12_exec.cpp"])
     nstates = 6 if ck.tier == "quick" else 64
-    sel, skipped = [], collections.Counter()
+    sel, bsel, skipped = [], [], collections.Counter()
     for c in cases:
         f, x = c["form"], c["cand"]
         if x[0] != 1:
@@ -335,6 +352,8 @@ def host_exec(ck, cases):
             if acc == "U" and fl in G.FLAG_BITS:
                 uflags |= G.FLAG_BITS[fl]
         sel.append((c, "X %d %d %d %d %d %d %d %s" % (ck.seed, nstates, x[1], x[2], x[3], uflags, len(x[4]), " ".join(x[4]))))
+        if ck.tier == "quick" and f["name"] in B_QUICK:
+            bsel.append((c, "X %d %d %d %d %d %d %d %s" % (B_QUICK_SEED, 64, x[1], x[2], x[3], uflags, len(x[4]), " ".join(x[4]))))
         # same-register variant: the first two generic register operands of equal type share one register
         ops = f["operands"]
         if len(x[4]) >= 2 and x[5][0] == "reg" and x[5][1] == "reg" and ops[0]["reg"] not in G.FIXED and ops[1]["reg"] not in G.FIXED \
@@ -380,12 +399,23 @@ def host_exec(ck, cases):
                      {"command": e["cmd"], "harness": "c12_exec"})
     # thorough tier (64 states per form, zero/small values frequent): a reported-written byte that depends on something not reported as read
     # is an obligation too; in the quick tier (6 states) B needs too much luck and stays exploration.
-    if ck.tier == "thorough":
-        for e in b_list:
+    b_quick = []
+    if bsel:
+        try:
+            for (c, cmd), o in zip(bsel, run_stream(exe, [cmd for _c, cmd in bsel], shards=8, timeout=900)):
+                kv = dict(t.split("=", 1) for t in o.split()[2:] if "=" in t)
+                if kv.get("B", "-") != "-":
+                    b_quick.append({"form": "%s %s" % (c["form"]["name"], " ".join(c["cand"][4])) + (" {k}" if c["cand"][3] else ""), "what": kv["B"], "cmd": cmd})
+        except Exception as e:
+            ck.notes.append("quick check-B subset failed to run: %s" % str(e)[:200])
+    if ck.tier == "thorough" or b_quick:
+        for e in (b_list if ck.tier == "thorough" else b_quick):
             ck.violation("C12/host/%s/unreported-read" % e["form"].split()[0],
                          "host CPU: the result of %s depends on state that query_rw_info does not report as read (%s)" % (e["form"], e["what"]),
                          {"command": e["cmd"], "harness": "c12_exec"})
-    return {"status": "A (unreported change) is an obligation; B (dependence on unreported reads) in the thorough tier; E is exploration", "states_per_form": nstates, "selected": len(sel), "executed": executed,
+    return {"status": "A (unreported change) is an obligation; B (dependence on unreported reads) in the thorough tier and, for a fixed subset, in the quick tier; E is exploration", "states_per_form": nstates,
+            "quick_check_B_subset": {"mnemonics": len(B_QUICK), "tuples": len(bsel), "states": 64, "seed": B_QUICK_SEED, "dependences_found": len(b_quick)},
+            "selected": len(sel), "executed": executed,
             "every_state_faulted": faults_only, "not_executed": dict(skip_reasons), "not_selected": dict(skipped),
             "unreported_changes": by_mnemonic(a_list), "dependence_on_unreported_reads": by_mnemonic(b_list),
             "extension_reported_but_bytes_kept": {"forms": len(e_list), "mnemonics": sorted(set(e["form"].split()[0] for e in e_list))[:400],
@@ -595,8 +625,9 @@ def run(ck):
             if ck.violation(key, "%s %s [%s]: %s" % (c["form"]["name"], " ".join(c["cand"][4]), c["form"]["opcode"], why),
                             {"command": G.cmd_of(c["cand"]), "impl": c["raw"], "form": c["form"]["idx"], "cand": list(c["cand"])}):
                 n_viol += 1
-        for (j, why) in c["rm_bad"]:
-            key = G.case_key(c["form"], c["cand"], j) + "/regmem"
+        for rb in c["rm_bad"]:
+            j, why = rb[0], rb[1]
+            key = G.case_key(c["form"], c["cand"], j) + ("/regmem" if len(rb) == 2 else "/regmem-feature:" + why.split("]")[0].split(":")[1])
             if ck.violation(key, "%s %s: %s (validator on the substituted tuple: %s)" % (c["form"]["name"], " ".join(c["cand"][4]), why,
                                                                                        {1: "accepts", 0: "refuses"}.get(c["ans"]["impl"].get("s%d" % j), "n/a")),
                             {"command": G.cmd_of(c["cand"]), "impl": c["raw"], "form": c["form"]["idx"], "cand": list(c["cand"])}):
@@ -611,6 +642,12 @@ def run(ck):
             ck.violation("C12/a64-access/%s/%s/op%s" % (c["form"]["name"], ",".join(t.split(":")[0] for t in c["cand"][1]), j),
                          "%s %s (asmjit tuple %s): %s" % (c["form"]["name"], ", ".join(o["data"] for o in c["form"]["operands"]), " ".join(c["cand"][1]), why),
                          {"command": "A %d %d %s" % (c["cand"][0], len(c["cand"][1]), " ".join(c["cand"][1])), "impl": c["raw"]})
+    af = getattr(build_a64_access, "features", None)
+    if af and af["answers_that_leave_the_output_untouched"]:
+        ck.violation("C12/a64-features/not-implemented",
+                     "a64 query_features returns kOk without writing its output for %d of %d tuples whose database form requires an extension (e.g. %s -> %r)" % (
+                         af["answers_that_leave_the_output_untouched"], af["tuples_with_database_extension"], af["sample"][0], af["sample"][1]),
+                     {"command": "G ...", "sample": af["sample"]})
     for c in a64_cases:
         for (j, why) in c["bad"]:
             cmd = "A %d %d %s" % (c["cand"][0], len(c["cand"][1]), " ".join(c["cand"][1]))
@@ -697,7 +734,8 @@ def run(ck):
          "tuples_tried": len(cands), "cases": len(cases), "cases_ok": len(ok), "cases_false_regmem_claim": len(rm_bad),
          "cases_not_covered": len(cover_bad), "unsupported": dict(unsupported), "a64_unsupported": dict(a64_unsupported),
          "a64_access": {"database_forms": len(acc_forms), "forms_with_accepted_tuple": acc_forms_ok, "tuples": len(acc_cands), "distinct_cases": len(acc_cases),
-                        "cases_not_covered": len([c for c in acc_cases if c["bad"]]), "not_expressible": dict(acc_unsupported)},
+                        "cases_not_covered": len([c for c in acc_cases if c["bad"]]), "not_expressible": dict(acc_unsupported),
+                        "query_features": getattr(build_a64_access, "features", None)},
          "a64_register_list_forms": len(a64_forms), "a64_cases": len(a64_cases), "a64_cases_run_not_reported": len([c for c in a64_cases if c["bad"]]), "cases_by_rw_category": dict(cat_hist),
          "regmem_claims_confirmed_by_database": rm_claims, "of_which_validator_refuses_substitution": rm_validator_refuses,
          "correspondence_commands": len(cmds), "model_vs_impl_disagreements": disagreements,
